@@ -161,6 +161,18 @@ def mslExpected (m : Mod) (bm : BMap) : String :=
       | none => if bm.fake then s!"{e.name}:{g.name}=user(fake0)" else s!"{e.name}:{g.name}=buffer({g.binding})") ++ sizes)
   s!"args {" ; ".intercalate (sortStr ls)}"
 
+/-- MSL without a map (and without FakeMissingBindings): `computeResourceMap` assigns sequential slots per resource
+kind over *all* bound globals sorted by (group, binding).  Every generated resource is a buffer, so the slot of a
+resource is its rank: the number of bound globals with a smaller (group, binding). -/
+def keyLt (a b : Global) : Bool := a.group < b.group || (a.group == b.group && a.binding < b.binding)
+
+def autoSlot (rs : List Global) (g : Global) : Nat := rs.countP (fun r => keyLt r g)
+
+def mslAutoExpected (m : Mod) : String :=
+  let all := m.globals.filter isResource
+  let ls := m.entries.flatMap (fun e => (usedResources m e).map (fun g => s!"{e.name}:{g.name}=buffer({autoSlot all g})"))
+  s!"args {" ; ".intercalate (sortStr ls)}"
+
 def glslSuffix : String → String
   | "vertex" => "vs" | "fragment" => "fs" | _ => "cs"
 
